@@ -60,3 +60,37 @@ def register(w):
             f"{H}[s.id][i].depth < {H}[s.id][j].depth or ({H}[s.id][i].depth == {H}[s.id][j].depth and ({H}[s.id][i].id < {H}[s.id][j].id or {H}[s.id][i].id == {H}[s.id][j].id))))))",
             f"forall[str](lambda k: implies(not exists[Node](lambda s: {DONE} and {RECP} and s.id == k), (k in {H}) == (k in old({H})) and implies(k in {H}, seq_eq({H}[k], old({H})[k]))))",
         ])
+
+    # ---- restoring: which states a history pseudo-state stands for -------------------------------------------------
+    @w.contract(BI + "_resolve_state_by_target", props=["C11"])
+    def _(c):
+        c.trusted = "assumed total and effect-free (string resolution of a target relative to a node: resolver.py, bounded.c09); None when unresolvable"
+        c.no_runtime = True
+        c.param("target", STR).param("reference", Node).returns(Node)
+
+    @w.contract(BI + "_resolve_history_target", props=["C11"])
+    def _(c):
+        c.param("history_node", Node).returns(ListSort(Node))
+        c.req("history_node != None")
+        c.req(f"forall[str, int](lambda k, i: implies(k in {H} and 0 <= i and i < len({H}[k]), {H}[k][i] != None))")
+        P = "history_node.parent"
+        REC = f"({P} != None and {P}.id in {H} and len({H}[{P}.id]) > 0)"
+        R = f"{H}[{P}.id]"
+        LEAF = "(n.type == 'atomic' or n.type == 'final' or len(n.states) == 0)"
+        c.ens(f"implies({P} == None, len(result) == 0)", label="root-history-node-restores-nothing")
+        c.ens("forall[int](lambda i: implies(0 <= i and i < len(result), result[i] != None))", label="result-holds-states")
+        # deep: exactly the recorded leaves (in recorded order); a record without any leaf is restored as recorded
+        c.ens(f"implies({REC} and history_node.history == 'deep' and exists[Node](lambda n: n in {R} and {LEAF}), "
+              f"forall[Node](lambda n: (n in result) == (n in {R} and {LEAF})))", label="deep-history-restores-exactly-the-recorded-leaves")
+        # shallow: exactly the recorded direct children of the parent
+        c.ens(f"implies({REC} and history_node.history != 'deep' and exists[Node](lambda n: n in {R} and n.parent == {P}), "
+              f"forall[Node](lambda n: (n in result) == (n in {R} and n.parent == {P})))", label="shallow-history-restores-exactly-the-recorded-children")
+        c.ens(f"implies({REC}, forall[Node](lambda n: implies(n in result, n in {R})))", label="restores-only-recorded-states")
+        # never exited: default target, else the parent's normal entry
+        NODEF = "(history_node.target_str == None or history_node.target_str == '')"
+        c.ens(f"implies({P} != None and not {REC} and {NODEF} and {P}.type != 'parallel' and {P}.initial != None and {P}.initial != '' and {P}.initial in {P}.states, "
+              f"len(result) == 1 and result[0] == {P}.states[{P}.initial])", label="unvisited-history-without-default-uses-the-initial-child")
+        c.label_props = {"unvisited-history-of-a-parallel-parent-enters-every-region": ["C11"]}
+        c.ens(f"implies({P} != None and not {REC} and {NODEF} and {P}.type == 'parallel', "
+              f"forall[str](lambda k: implies(k in {P}.states and {P}.states[k].type != 'history', {P}.states[k] in result)))",
+              label="unvisited-history-of-a-parallel-parent-enters-every-region")
